@@ -84,12 +84,23 @@ Lits == [
   nestedspread |-> EObj(<<Pair(EStr(<<111>>), EObj(<<PSpread(EVar(Q))>>)), PSpread(EVar(Q))>>)
 ]
 
+\* op-assignment to one property whose value is also reachable elsewhere: every other
+\* property (and the other holder) keeps its value
+Sh == <<115, 104>>
+OpAliasForms == {"dot", "idx", "istr", "dotint", "nested"}
+OpAliasStmt(f) ==
+    CASE f = "dot"    -> SOpAssign(EProp(EVar(O), <<97>>), "+", EList(<<EInt(2)>>))
+      [] f = "idx"    -> SOpAssign(EIndex(EVar(O), EStr(<<97>>)), "+", EList(<<EInt(3)>>))
+      [] f = "istr"   -> SOpAssign(EIndex(EVar(O), EIStr(<<Lit(<<>>), SlotP(0, EStr(<<97>>)), Lit(<<>>)>>)), "+", EVar(Sh))
+      [] f = "dotint" -> SOpAssign(EProp(EVar(O), <<98>>), "+", EInt(5))
+      [] f = "nested" -> SOpAssign(EIndex(EProp(EVar(O), <<97>>), EInt(0)), "+", EInt(6))
 \* parameter tuples <<family, history-or-(perm1,perm2), name>>
 C12Params ==
     { <<"hist", h, "-">> : h \in UNION {Hists(n) : n \in 1 .. HistLen} }
     \cup { <<"paths", h, "-">> : h \in UNION {Hists(n) : n \in 1 .. HistLen} }
     \cup { <<"order", p1 \o p2, "-">> : p1 \in Perms3, p2 \in Perms3 }
     \cup { <<"lit", <<>>, l>> : l \in DOMAIN Lits }
+    \cup { <<"opalias", <<>>, f>> : f \in OpAliasForms }
 
 C12ProgOf(p) ==
     CASE p[1] = "hist" ->
@@ -110,6 +121,14 @@ C12ProgOf(p) ==
             \o [i \in 1 .. 3 |-> SAssign(EIndex(EVar(O), EStr(Keys[PermKeys[p[2][i]]])), EInt(p[2][i]))]
             \o [i \in 1 .. 3 |-> SAssign(EIndex(EVar(Q), EStr(Keys[PermKeys[p[2][3 + i]]])), EInt(p[2][3 + i]))]
             \o <<SPrint(EBin("==", EVar(O), EVar(Q)))>> \o Observe(O) \o Observe(Q)
+      [] p[1] = "opalias" ->
+            <<SDecl(EVar(Sh), EList(<<EInt(1)>>)),
+              SDecl(EVar(O), EObj(<<Pair(EStr(<<97>>), EVar(Sh)), Pair(EStr(<<66>>), EVar(Sh)), Pair(EStr(<<98>>), EInt(4)),
+                                    Pair(EStr(<<>>), EList(<<EInt(1)>>))>>)),
+              SDecl(EVar(Q), EObj(<<PSpread(EVar(O))>>)),
+              OpAliasStmt(p[3]), SPrint(EVar(O)), SPrint(EVar(Sh)), SPrint(EVar(Q)),
+              SPrint(EBin("===", EProp(EVar(O), <<66>>), EVar(Sh))), SPrint(EBin("===", EProp(EVar(O), <<97>>), EVar(Sh))),
+              OpAliasStmt(p[3]), SPrint(EVar(O)), SPrint(EVar(Sh)), SPrint(EVar(Q))>>
       [] p[1] = "lit" ->
             <<SDecl(EVar(Xv), EInt(5)), SDecl(EVar(Nm), EStr(<<107>>)),
               SDecl(EVar(Q), EObj(<<Pair(EStr(<<97>>), EInt(1)), Pair(EStr(<<99>>), EInt(3))>>)),
